@@ -221,6 +221,17 @@ def to_x(v):
     return None
 
 
+def _pos_x(x):
+    n, d = x.rational()
+    if not (n.single() and d.single()): return False
+    for p in (n, d):
+        (m, c), = p.t.items()
+        if c.im != 0 or c.re <= 0: return False
+        for a, e in m:
+            if a.kind != "pos": return False
+    return True
+
+
 def scal_op(op, a, b):
     """binary op on scalars (X or python numbers); returns X or Opaque."""
     xa, xb = to_x(a), to_x(b)
@@ -237,7 +248,7 @@ def scal_op(op, a, b):
             c = xb.constval()
             if c is not None and c.im == 0:
                 return xa.pow(c.re)
-            return mk_fn("pow", [xa, xb])
+            return mk_fn("pow", [xa, xb], "pos" if _pos_x(xa) else "real")
         if op == "//":
             return mk_fn("floor", [xa / xb])
         if op == "%":
@@ -283,6 +294,55 @@ def as_arr(v):
     return None
 
 
+DEFN = {}     # definitional atoms: name -> decision tree it stands for
+
+
+def name_pv(pv, prefix="cnt"):
+    """give a decision-tree valued scalar a name (an atom) so that it can be used as a loop bound / array length."""
+    k = vkey(pv)
+    for nm, (kk, v) in DEFN.items():
+        if kk == k: return X.var(nm)
+    nm = fresh(prefix); KIND[nm] = "nat"
+    DEFN[nm] = (k, pv)
+    return X.var(nm)
+
+
+def expand_defn(v, depth=0):
+    """substitute definitional atoms back (leaf-wise)."""
+    if depth > 6: return v
+    names = [n for n in _fv_val(v) if n in DEFN]
+    if not names: return v
+    nm = names[0]
+    pv = DEFN[nm][1]
+    r = pv_apply(lambda leaf: subst_val(v, {nm: to_x(leaf)}) if to_x(leaf) is not None else Opaque("definition leaf"), pv)
+    return expand_defn(r, depth + 1)
+
+
+def _fv_val(v):
+    if isinstance(v, X): return v.fv()
+    if isinstance(v, PV): return _fv_val(v.hi) | _fv_val(v.lo) | _cond_fvs(v.cond)
+    if isinstance(v, Arr):
+        out = _fv_val(v.body)
+        for a, c in v.axes:
+            if isinstance(c, X): out = out | c.fv()
+        return out
+    if isinstance(v, tuple):
+        out = set()
+        for e in v: out |= _fv_val(e)
+        return out
+    return set()
+
+
+def _cond_fvs(c):
+    d = getattr(c, "lt", None)
+    if d is not None: return d.fv()
+    e = getattr(c, "eq", None)
+    if e is not None: return e[1].fv() | e[2].fv()
+    t = getattr(c, "tree", None)
+    if t is not None: return _fv_val(t)
+    return set()
+
+
 def subst_cond(cond, mapping):
     """re-decide a condition after substitution: True / False / Cond."""
     d = getattr(cond, "lt", None)
@@ -292,6 +352,14 @@ def subst_cond(cond, mapping):
         c = nd.constval()
         if c is not None and c.im == 0: return c.re < 0
         nc = Cond.get(("lt", nd.keystr()), f"{nd!r} < 0"); nc.lt = nd
+        return nc
+    tree = getattr(cond, "tree", None)
+    if tree is not None:
+        nt = subst_val(tree, mapping)
+        if isinstance(nt, bool): return nt
+        if vkey(nt) == vkey(tree): return cond
+        if isinstance(nt, PV) and nt.hi is True and nt.lo is False: return nt.cond
+        nc = Cond.get(("tree", vkey(nt)), repr(nt)); nc.tree = nt
         return nc
     e = getattr(cond, "eq", None)
     if e is not None:
